@@ -51,13 +51,15 @@ class DisplayOracle:
         self.committed = []  # non-blank rows (cells)
         self.frame = None  # rows on screen below the committed ones, or None
         self.max_frame_h = 0
+        self.last_refresh_frame = None  # frame drawn by the most recent refresh (not by a print)
         self.hooked = False  # render hook expected to be active
         self.cursor_hidden_expected = None  # None = not judged (inside start/stop)
         self.relaxed = None  # reason: from now on only "printed tokens in order"
         self.tags = set()  # known-finding predicates that hold for this run
         self.viol = None  # first violation only
-        self.stages = []
-        self.op = None
+        self._stages = {}  # tid -> remaining stages of that client's current operation
+        self._ops = {}
+        self._wtid = None  # thread whose write is being judged
         self.client_tids = set()
         self.frames_fn = lambda why: []  # candidate frames at this instant (list of row lists)
         self._fcache = {}
@@ -70,6 +72,29 @@ class DisplayOracle:
         self._ellipsis = None
         self.tracker = None  # SpanTracker, when the run may meet the overlapping-spans finding
         self._cur_write = None
+
+    # -- per-thread operation state -------------------------------------------
+    def _tid(self):
+        if self._wtid is not None:
+            return self._wtid
+        me = self.sim.me()
+        return me.tid if me is not None else -1
+
+    @property
+    def stages(self):
+        return self._stages.setdefault(self._tid(), [])
+
+    @stages.setter
+    def stages(self, v):
+        self._stages[self._tid()] = v
+
+    @property
+    def op(self):
+        return self._ops.get(self._tid())
+
+    @op.setter
+    def op(self, v):
+        self._ops[self._tid()] = v
 
     # -- helpers -------------------------------------------------------------
     def ellipsis_row(self):
@@ -217,6 +242,8 @@ class DisplayOracle:
                 self.tags.add("progress-frame-exceeds-screen")
             if note == "final" and self.transient and max(fh, self.max_frame_h if self.kind == "progress" else 0) >= self.H:
                 self.tags.add("transient-frame-fills-screen")
+        if note in ("frame", "helper-frame", "final"):
+            self.last_refresh_frame = f
         self.committed, self.frame = c, f
 
     # -- the write hook ------------------------------------------------------
@@ -230,6 +257,13 @@ class DisplayOracle:
                 self.tracker.write_done(seq, tid)
 
     def _on_write(self, seq, tid, text):
+        self._wtid = tid
+        try:
+            self._on_write2(seq, tid, text)
+        finally:
+            self._wtid = None
+
+    def _on_write2(self, seq, tid, text):
         self.writes += 1
         self.probe["writes"] += 1
         self._fcache = {}
